@@ -75,8 +75,11 @@ def check_a(ck, repo):
                         tree, iv = p
                         it = src_of(c.iter)
                         ck.verdict(it in (f"range({tree}.node_count)", f"range(len({tree}.children_left))") and iv == c.target.id, "C12.a", fi, s.test, "loop over all node ids with a confirmed leaf predicate", f"loop runs over {it!r}, not over every node id")
-    # tree_leave_index appends the leaf id
+    # tree_leave_index: its test must be a confirmed leaf predicate (anchored site)
     tl = repo.func(TS, "tree_leave_index")
+    tests = [x for x in own_nodes(tl.node) if isinstance(x, ast.If)]
+    okp = len(tests) == 1 and _leaf_pred(tests[0].test) is not None
+    ck.verdict(okp, "C12.a", tl, tests[0].test if tests else "if <leaf predicate>", "tree_leave_index selects nodes with a confirmed leaf predicate", f"tree_leave_index selects nodes with `{src_of(tests[0].test) if tests else None}`, which is not a leaf predicate (children_left[i] == TREE_LEAF, or both children <= i): a split node can be listed as a leaf")
     app = [src_of(s) for s in own_nodes(tl.node) if isinstance(s, ast.Expr)]
     ck.verdict("res.append(i)" in app, "C12.a", tl, "res.append(i)", "leaf ids collected", "tree_leave_index does not collect the leaf id")
     # tree_node_parents: both children recorded for internal nodes
@@ -238,6 +241,7 @@ _D = "mlinsights/mltree/tree_digitize.py"
 WITNESSES = [
     {"name": "leaves-index-right-child", "file": _S, "rule": "C12.a", "old": "    for i in range(tree.node_count):\n        if tree.children_left[i] == TREE_LEAF:\n            res.append(i)\n", "new": "    for i in range(tree.node_count):\n        if tree.children_left[i] <= TREE_LEAF + 1:\n            res.append(i)\n"},
     {"name": "leaves-skip-root", "file": _S, "rule": "C12.a", "old": "    for i in range(tree.node_count):\n        if tree.children_left[i] == TREE_LEAF:\n            res.append(i)\n", "new": "    for i in range(1, tree.node_count):\n        if tree.children_left[i] == TREE_LEAF:\n            res.append(i)\n"},
+    {"name": "leaves-by-threshold-sentinel", "file": _S, "rule": "C12.a", "old": "        if tree.children_left[i] == TREE_LEAF:\n            res.append(i)\n", "new": "        if tree.threshold[i] == -2:\n            res.append(i)\n"},
     {"name": "predict-leaves-no-translate", "file": _S, "rule": "C12.a", "old": "    res = numpy.array([leaves_index[r] for r in res])\n", "new": "    res = numpy.array([r for r in res])\n"},
     {"name": "piecewise-leaf-predicate", "file": "mlinsights/mlmodel/piecewise_estimator.py", "rule": "C12.a", "old": "                if tree.children_left[i] <= i and tree.children_right[i] <= i\n", "new": "                if tree.children_left[i] <= i\n"},
     {"name": "range-left-lower", "file": _S, "rule": "C12.b", "old": "        if lr:\n            res[fn, 1] = min(res[fn, 1], th) if not numpy.isnan(res[fn, 1]) else th\n        else:\n            res[fn, 0] = max(res[fn, 0], th) if not numpy.isnan(res[fn, 0]) else th\n", "new": "        if lr:\n            res[fn, 0] = max(res[fn, 0], th) if not numpy.isnan(res[fn, 0]) else th\n        else:\n            res[fn, 1] = min(res[fn, 1], th) if not numpy.isnan(res[fn, 1]) else th\n"},
